@@ -43,7 +43,7 @@ Proof. exact best_control_spec. Qed.
 Theorem C02_control_rrt_paths_replay :
   forall (St C : Type) (stepf : C -> St -> St) (valid : St -> bool) dist sat gdist (dflt : St) minDur starts ins, starts <> [] ->
   let tree := fst (crrt_solve St C stepf valid dist sat gdist dflt minDur starts ins) in
-  TInv St (C * nat) (cEdge St C stepf valid minDur) (length starts) starts tree /\
+  TInv St (C * nat) (cEdge St C stepf valid minDur) starts tree /\ (exists ext, tree = map (fun x => (x, None)) starts ++ ext) /\
   match snd (crrt_solve St C stepf valid dist sat gdist dflt minDur starts ins) with
   | Some (path, approx, dd) =>
       path <> [] /\ (exists s0, hd (None, dflt) path = (None, s0) /\ In s0 starts) /\
@@ -52,7 +52,7 @@ Theorem C02_control_rrt_paths_replay :
       (if approx then sat (snd (last path (None, dflt))) = false /\
                       forall j, (length starts <= j < length tree)%nat -> (gdist (state_at St (C * nat) dflt tree j) <? dd)%Z = false
        else sat (snd (last path (None, dflt))) = true)
-  | None => tree = map (fun x => (x, None)) starts
+  | None => length tree = length starts
   end.
 Proof. exact crrt_solve_spec. Qed.
 (* meaning of the admission rule applied to every observed run *)
